@@ -24,7 +24,8 @@ package parser
 //@   ensures[C02,C03] old(p.token) == base.EOS ==> p.token == base.EOS && M(p.Lexer.reader) <= old(M(p.Lexer.reader))
 //@   ensures[C06] old(p.ungetFlg) ==> p.Row == old(p.Row) && p.ErrorRow == old(p.ErrorRow)
 //@   ensures[C06] !old(p.ungetFlg) && p.token == '\n' ==> p.Row == old(p.Row) + 1 && p.ErrorRow == old(p.ErrorRow)
-//@   ensures[C06] !old(p.ungetFlg) && p.token != '\n' && p.token != base.EOS ==> p.Row == old(p.Row) && p.ErrorRow == p.Row
+//@   ensures[C06] !old(p.ungetFlg) && p.token != '\n' && p.token != base.STRING && p.token != base.EOS ==> p.Row == old(p.Row) && p.ErrorRow == p.Row
+//@   ensures[C06] !old(p.ungetFlg) && p.token == base.STRING ==> p.Row == old(p.Row) + strings.Count(unbox(p.Lexer.val, "string"), "\n") && p.ErrorRow == old(p.Row)
 //@   ensures[C06] !old(p.ungetFlg) && p.token == base.EOS ==> p.Row == old(p.Row) && p.ErrorRow == old(p.ErrorRow)
 
 //@ func (*ti/parser.Parser).Read
